@@ -42,3 +42,163 @@ func VerifC34TableVersions() {
 	}
 	vr.Reach("done")
 }
+
+// Ledger-touching opcodes (named here from the AVM specification, independently
+// of the table's own mode column) are excluded from signature mode at every version.
+var verifC34LedgerOps = map[string]bool{
+	"balance": true, "min_balance": true, "app_opted_in": true, "app_local_get": true, "app_local_get_ex": true,
+	"app_global_get": true, "app_global_get_ex": true, "app_local_put": true, "app_global_put": true,
+	"app_local_del": true, "app_global_del": true, "asset_holding_get": true, "asset_params_get": true,
+	"app_params_get": true, "acct_params_get": true, "voter_params_get": true, "online_stake": true,
+	"log": true, "itxn_begin": true, "itxn_field": true, "itxn_submit": true, "itxn_next": true,
+	"itxn": true, "itxna": true, "itxnas": true, "gitxn": true, "gitxna": true, "gitxnas": true,
+	"box_create": true, "box_extract": true, "box_replace": true, "box_del": true, "box_len": true,
+	"box_get": true, "box_put": true, "box_splice": true, "box_resize": true,
+	"gload": true, "gloads": true, "gloadss": true, "gaid": true, "gaids": true,
+}
+
+//verif:harness prop=C34 reach=done,ledgerop unwind=300 steps=80000000
+func VerifC34TableModes() {
+	var isLedgerOp [LogicVersion + 1][256]bool
+	var sigAllowed [LogicVersion + 1][256]bool
+	seen := 0
+	for v := 0; v <= LogicVersion; v++ {
+		for op := 0; op < 256; op++ {
+			spec := &opsByOpcode[v][op]
+			if spec.op != nil && verifC34LedgerOps[spec.Name] {
+				isLedgerOp[v][op] = true
+				seen++
+			}
+			sigAllowed[v][op] = spec.op != nil && spec.Modes&ModeSig != 0
+		}
+	}
+	vr.Assert("c34.modes.names-resolve", seen > 100) // the independent name list really matches table entries
+	v := vr.U8("version")
+	op := vr.U8("opcode")
+	vr.Assume(v <= LogicVersion)
+	if isLedgerOp[v][op] {
+		vr.Reach("ledgerop")
+		vr.Assert("c34.modes.ledger-op-not-in-sigmode", !sigAllowed[v][op])
+	}
+	vr.Reach("done")
+}
+
+// Static checking and execution agree: for every opcode, on the same symbolic
+// immediate bytes, checkStep and step advance the pc identically, and every
+// branch target that execution takes was marked as a legal target by the check.
+var verifC34Branching = map[string]bool{"bnz": true, "bz": true, "b": true, "callsub": true, "switch": true, "match": true}
+var verifC34NoFallthrough = map[string]bool{"retsub": true, "return": true, "err": true}
+
+func verifC34Agree(lo, hi int) {
+	version := uint64(LogicVersion)
+	op := lo + vr.Choice("opcode", hi-lo)
+	spec := &opsByOpcode[version][op]
+	if spec.op == nil || spec.SubOps != nil || verifC31Skip[spec.Name] || verifC34NoFallthrough[spec.Name] {
+		vr.Reach("done")
+		return
+	}
+	if spec.OpDetails.check == nil && spec.OpDetails.Size != 0 {
+		// fixed-size instruction without a check function: checkStep and step both
+		// advance by the same table constant deets.Size, there is nothing to disagree on
+		vr.Reach("done")
+		return
+	}
+	prog := make([]byte, 2+vr.Param(3, 6))
+	prog[0] = byte(version)
+	prog[1] = byte(op)
+	vr.Fill("imm", prog[2:])
+	// static side
+	cs := verifC31Context(version, prog)
+	_, cerr := cs.checkStep()
+	// dynamic side
+	cx := verifC31Context(version, prog)
+	labels := []string{"s0", "s1", "s2", "s3", "s4"}
+	for i, t := range spec.Arg.Types {
+		if i < len(labels) {
+			cx.Stack = append(cx.Stack, verifC31Operand(t, labels[i]))
+		}
+	}
+	switch spec.Name {
+	case "bzero", "dupn", "popn":
+		if n := len(cx.Stack); n > 0 && cx.Stack[n-1].Bytes == nil {
+			vr.Assume(cx.Stack[n-1].Uint <= 4)
+		}
+		vr.Assume(prog[2] <= 4)
+	}
+	xerr := cx.step()
+	if xerr == nil {
+		vr.Reach("stepped")
+		// anything that executes must have passed the static check. Branching
+		// opcodes are exempt in this single-step setting: the check accepts a BACK
+		// branch only if an earlier instruction's check recorded its target as an
+		// instruction start (whole-program knowledge that one step does not have;
+		// e.g. a branch back to pc 0, the version byte, is refused by the check).
+		if !verifC34Branching[spec.Name] {
+			vr.Assert("c34.agree.executes-implies-checks", cerr == nil)
+		}
+		if cerr == nil {
+			if verifC34Branching[spec.Name] {
+				ok := cx.pc == cs.pc
+				if cx.pc >= 0 && cx.pc < len(cs.branchTargets) && cs.branchTargets[cx.pc] {
+					ok = true
+				}
+				vr.Assert("c34.agree.branch-target-legal", ok)
+			} else {
+				vr.Assert("c34.agree.same-instruction-size", cx.pc == cs.pc)
+			}
+		}
+	}
+	vr.Reach("done")
+}
+
+//verif:harness prop=C34 reach=done unwind=70 values=300 budget=420 thorough.budget=2400
+func VerifC34Agree00() { verifC34Agree(0x00, 0x30) }
+
+//verif:harness prop=C34 reach=done unwind=70 values=300 budget=420 thorough.budget=2400
+func VerifC34Agree30() { verifC34Agree(0x30, 0x34) }
+
+//verif:harness prop=C34 reach=done unwind=70 values=300 budget=420 thorough.budget=2400
+func VerifC34Agree34() { verifC34Agree(0x34, 0x38) }
+
+//verif:harness prop=C34 reach=done unwind=70 values=300 budget=420 thorough.budget=2400
+func VerifC34Agree38() { verifC34Agree(0x38, 0x40) }
+
+//verif:harness prop=C34 reach=done unwind=70 values=300 budget=420 thorough.budget=2400
+func VerifC34Agree40() { verifC34Agree(0x40, 0x50) }
+
+//verif:harness prop=C34 reach=done unwind=70 values=300 budget=420 thorough.budget=2400
+func VerifC34Agree50() { verifC34Agree(0x50, 0x58) }
+
+//verif:harness prop=C34 reach=done unwind=70 values=300 budget=420 thorough.budget=2400
+func VerifC34Agree58() { verifC34Agree(0x58, 0x60) }
+
+//verif:harness prop=C34 reach=done unwind=70 values=300 budget=420 thorough.budget=2400
+func VerifC34Agree60() { verifC34Agree(0x60, 0x80) }
+
+//verif:harness prop=C34 reach=done unwind=70 values=300 budget=420 thorough.budget=2400
+func VerifC34Agree80() { verifC34Agree(0x80, 0x82) }
+
+//verif:harness prop=C34 reach=done unwind=70 values=300 budget=420 thorough.budget=2400
+func VerifC34Agree82() { verifC34Agree(0x82, 0x84) }
+
+//verif:harness prop=C34 reach=done unwind=70 values=300 budget=420 thorough.budget=2400
+func VerifC34Agree84() { verifC34Agree(0x84, 0x8d) }
+
+//verif:harness prop=C34 reach=done unwind=70 values=300 budget=420 thorough.budget=2400
+func VerifC34Agree8D() { verifC34Agree(0x8d, 0x8e) }
+
+//verif:harness prop=C34 reach=done unwind=70 values=300 budget=420 thorough.budget=2400
+func VerifC34Agree8E() { verifC34Agree(0x8e, 0x90) }
+
+//verif:harness prop=C34 reach=done unwind=70 values=300 budget=420 thorough.budget=2400
+func VerifC34Agree90() { verifC34Agree(0x90, 0xc0) }
+
+//verif:harness prop=C34 reach=done unwind=70 values=300 budget=420 thorough.budget=2400
+func VerifC34AgreeC0() { verifC34Agree(0xc0, 0xc8) }
+
+//verif:harness prop=C34 reach=done unwind=70 values=300 budget=420 thorough.budget=2400
+func VerifC34AgreeC8() { verifC34Agree(0xc8, 0xd0) }
+
+//verif:harness prop=C34 reach=done unwind=70 values=300 budget=420 thorough.budget=2400
+func VerifC34AgreeD0() { verifC34Agree(0xd0, 0x100) }
+
